@@ -1,4 +1,5 @@
 import Txtpp.Lemmas.SinkFacts
+import Txtpp.Lemmas.VerifyRel
 import Txtpp.Lemmas.VerifyProject
 /-!
 # Property C06 — verify passes exactly when outputs are up to date, and is read-only
@@ -64,5 +65,27 @@ theorem verify_mismatch_fails_its_pass {C : Type} (w : Coord.World) (R : Coord.S
 example : verifyStream [1, 2, 3] [[1], [2, 3]] = true := by decide
 example : verifyStream [1, 2, 3] [[1], [2]] = false := by decide
 example : verifyStream [1, 2] [[1], [2, 3]] = false := by decide
+
+/-- what a pass computes is the same function in verify and in build mode; only the sink differs -/
+theorem verify_computes_what_build_computes {W : Type} (Wd : World W) (le : List Char) (first trailing : Bool) (w : W)
+    (lines : List (List Char)) (readOk : Bool) :
+    ppPass Wd .verify le first trailing w lines readOk = ppPass Wd .build le first trailing w lines readOk :=
+  ppPass_verify Wd le first trailing w lines readOk
+
+/-- **Verify passes exactly when the output is up to date (one source, concrete preprocessor).**
+A verify pass over `src` ends `ok` if and only if a build pass over the same tree, with the same
+options, ends `ok` and leaves at the output path exactly the bytes that are already there - so any
+difference (one byte, a truncation, an extension, a missing file) fails it. Side conditions: the
+output path is not a directory, is not also a temp target of the source, and the source does not read
+its own output while it is rebuilt. -/
+theorem verify_pass_ok_iff_output_up_to_date (cfg : Cfg) (hb : cfg.mode = .build) (a : FS) (src : Path) (first : Bool)
+    (content : ByteArray) (o : Path) (bs : List (Refine.Block Directive))
+    (hfile : a.file? src = some content) (hout : outputPath src = some o) (hnd : a.isDir o = false)
+    (hbs : srcBlocks .build (decodeLines (byteLines content.toList)).1 = some bs)
+    (hsafe : Safe cfg a src.dropLast bs [o]) (hprobes : ProbesOK cfg a src.dropLast [o] bs)
+    (hnot : ∀ d e, Refine.Block.dir d e ∈ bs → dirWrites cfg a src.dropLast d ≠ some o) :
+    (runPass cfg.toVerify a src first).1 = .ok ↔
+      ((runPass cfg a src first).1 = .ok ∧ (runPass cfg a src first).2.file? o = a.file? o) :=
+  verify_pass_iff cfg hb a src first content o bs hfile hout hnd hbs hsafe hprobes hnot
 
 end C06
